@@ -49,7 +49,8 @@ def inv_rows(I, atoms, arr_name, saved):
 def displacement_loop_contract(I, node, frame):
     atoms, old = frame.locals["atoms"], frame.locals["old_positions"]
     I.path.oblige(DM + ".attempt_displacement#loop[0].init", inv_rows(I, atoms, "positions", old), kind="loop")
-    atoms.arrays["positions"] = old.like(old.term)
+    from pyvc.models.arrays import assign_in_place
+    assign_in_place(atoms.arrays["positions"], old.like(old.term))      # havoc to the invariant, keeping the array object (aliases!)
     if I.path.branch(I.path.fresh("another_attempt", "bool").t):
         yield from I.exec_block(node.body, frame)
         I.path.oblige(DM + ".attempt_displacement#loop[0].preserve", inv_rows(I, atoms, "positions", old), kind="loop")
@@ -63,8 +64,9 @@ def cell_loop_contract(I, node, frame):
         c = z3.And([to_z3(a, "real") == to_z3(b, "real") for a, b in zip(atoms.cell.array.data, oc.array.data)])
         return z3.And(c, inv_rows(I, atoms, "positions", op_))
     I.path.oblige(CM + ".attempt_deformation#loop[0].init", inv(), kind="loop")
-    atoms.cell = CellModel(oc.array.copy())
-    atoms.arrays["positions"] = op_.like(op_.term)
+    atoms.cell = CellModel(oc.array.copy(), volume=oc._volume)
+    from pyvc.models.arrays import assign_in_place
+    assign_in_place(atoms.arrays["positions"], op_.like(op_.term))
     if I.path.branch(I.path.fresh("another_attempt", "bool").t):
         yield from I.exec_block(node.body, frame)
         I.path.oblige(CM + ".attempt_deformation#loop[0].preserve", inv(), kind="loop")
@@ -147,8 +149,8 @@ def checker(I, answers_log):
 
 def snapshot(I, sim, atoms, moves=()):
     ctx = sim.attrs["context"]
-    return dict(arrays=dict(atoms.arrays), cell=atoms.cell.array.copy(), constraints=list(atoms.constraints),
-                ctx={k: v for k, v in ctx.attrs.items()}, labels=[m.attrs.get("labels") for m in moves], n=atoms.n(),
+    return dict(arrays={k: v.like(v.term) for k, v in atoms.arrays.items()}, cell=atoms.cell.array.copy(), constraints=list(atoms.constraints),
+                ctx={k: v for k, v in ctx.attrs.items()}, labels=[(m.attrs.get("labels").like(m.attrs.get("labels").term) if isinstance(m.attrs.get("labels"), SArr) else m.attrs.get("labels")) for m in moves], n=atoms.n(),
                 evals=atoms.calc.evals if atoms.calc else 0)
 
 
